@@ -200,11 +200,16 @@ func (s *Syncer[H]) localHead(ctx context.Context) (H, error) {
 	// pending head is the latest known subjective head and a sync target
 	// if it is empty, no sync is in progress
 	pendHead := s.pending.Head()
-	if !pendHead.IsZero() {
-		return pendHead, nil
-	}
 	// if pending is empty - get the latest stored/synced head
 	head, err := s.store.Head(ctx)
+	if !pendHead.IsZero() {
+		// ... and also if the store is already past the pending head: a head that was verified while the
+		// store was still below it can be put into pending after the sync loop has passed it
+		if err != nil || pendHead.Height() > head.Height() {
+			return pendHead, nil
+		}
+		return head, nil
+	}
 	if err != nil {
 		return head, fmt.Errorf("local store head: %w", err)
 	}
